@@ -25,6 +25,7 @@ type Op struct {
 	Pairs [][2]string
 	Flag  bool      // noformat value / write fault / fs fault
 	Code  term.Node // for fadd (must be *Stmt), rcode, rplain
+	Run   func() Obs // for ext (optional): the implementation-side observation of this element
 }
 
 type History []Op
@@ -75,6 +76,9 @@ func (h History) Sexp() string {
 			parts = append(parts, fmt.Sprintf("(save %d %s %s)", op.F, term.X(op.A), b2(op.Flag)))
 		case "imports":
 			parts = append(parts, fmt.Sprintf("(imports %d)", op.F))
+		case "ext":
+			// an element of a non-history line ((heap) (skel) (lit) ...): A is printed verbatim
+			parts = append(parts, op.A)
 		default:
 			panic("hist: bad op " + op.Kind)
 		}
@@ -150,6 +154,7 @@ type World struct {
 	B     *term.Builder
 	// SaveDir maps the symbolic save paths of a history to real paths.
 	SavePath func(sym string) string
+	groups   map[*term.Group]*jen.Group // group targets of rcode/rplain (grouptarget.go)
 }
 
 func NewWorld() *World {
@@ -224,6 +229,10 @@ func (w *World) Exec(h History) (obs []Obs) {
 			obs = append(obs, w.save(f, op))
 		case "imports":
 			obs = append(obs, ImportsObs(f))
+		case "ext":
+			if op.Run != nil {
+				obs = append(obs, op.Run())
+			}
 		default:
 			panic("hist: bad op " + op.Kind)
 		}
@@ -239,6 +248,8 @@ func (w *World) target(n term.Node) interface{} {
 		return (*jen.Statement)(nil)
 	case term.NilGroup:
 		return (*jen.Group)(nil)
+	case *term.Group:
+		return w.groupTarget(x) // grouptarget.go: a real *jen.Group captured from the ...Func form
 	}
 	panic(fmt.Sprintf("hist: cannot render a %T directly", n))
 }
@@ -400,7 +411,11 @@ func ParseObs(line string) ([]Obs, error) {
 			}
 			out = append(out, o)
 		default:
-			return nil, fmt.Errorf("unknown observation %q", l[0].atom)
+			if l[0].isl || l[0].atom == "" {
+				return nil, fmt.Errorf("unknown observation %q", l[0].atom)
+			}
+			// generic observation of a non-history line (ext.go): head atom + the rest re-printed
+			out = append(out, Obs{Kind: l[0].atom, Out: printSx(l[1:])})
 		}
 	}
 	return out, nil
@@ -411,7 +426,9 @@ func ParseObs(line string) ([]Obs, error) {
 func Expected(m Obs, noformat bool) Obs {
 	switch m.Kind {
 	case "write", "save":
-		if m.Mode == "raw" {
+		// The model prints no mode for save: the caller passes noformat = the NoFormat setting
+		// of the saved file at that point of the history (the text is then written as is).
+		if m.Mode == "raw" || (m.Kind == "save" && noformat) {
 			o := m
 			if m.Failed {
 				o.Out = ""
@@ -459,6 +476,10 @@ func SameObs(exp, got Obs) bool {
 			}
 		}
 		return true
+	case "bad":
+		return false
+	default: // generic observation of a non-history line (ext.go)
+		return exp.Out == got.Out
 	}
 	return false
 }
@@ -475,6 +496,9 @@ func (o Obs) String() string {
 		return fmt.Sprintf("save(path=%q failed=%v out=%q)", o.Path, o.Failed, o.Out)
 	case "imports":
 		return fmt.Sprintf("imports(%v)", o.Imports)
+	}
+	if o.Msg == "" && o.Out != "" {
+		return fmt.Sprintf("%s(%s)", o.Kind, o.Out)
 	}
 	return fmt.Sprintf("%s(%s)", o.Kind, o.Msg)
 }
